@@ -102,7 +102,7 @@ func (Section) Generate(seed uint64, tier string) engine.Plan {
 	for wi := 0; wi < nw; wi++ {
 		w := SecWriter{Kind: "section", Off: next}
 		last := wi == nw-1
-		w.N = r.PickInt64(0, 1, 2, 16, 16, 100, 100, 4096, secNoEnd)
+		w.N = r.PickInt64(0, 1, 2, 16, 16, 64, 100, 100, 255, 256, 1024, 4095, 4096, 4097, secNoEnd)
 		if r.Chance(1, 6) {
 			w.N = r.Range(3, 300)
 		}
